@@ -49,6 +49,8 @@ CONSTANTS
   NetMode, Budget,
   Props        \* properties whose rules are switched on
 
+\* Rwnd >= 9 switches the window off: constant advertisement, no bookkeeping (keeps the other models small)
+WOn == Rwnd < 9
 Side == {"A", "B"}
 Peer(s) == IF s = "A" THEN "B" ELSE "A"
 NCh == Len(Chans)
@@ -277,7 +279,7 @@ TransmitNew(s) ==
   \* transmit(): new data while rwnd - flight > 0; the last chunk may exceed what is left (one packet
   \* beyond the window), but nothing goes out against an advertised window of zero
   /\ peerW[s] > 0 /\ peerW[s] + 1 > Cardinality(Outstanding(sentQ[s]))
-  /\ since' = [since EXCEPT ![s] = @ + 1]
+  /\ since' = IF WOn THEN [since EXCEPT ![s] = @ + 1] ELSE since
   /\ LET f == Head(outQ[s])
          t == next[s]
      IN /\ sentQ' = [sentQ EXCEPT ![s] = @ \cup {[tsn |-> t, fr |-> f, n |-> 1, acked |-> FALSE, ab |-> FALSE]}]
@@ -346,7 +348,7 @@ ResendFwd(s) ==
   /\ NetSend(s, Pkt("FWD", s, advPt[s], fwd[s].fr, {}))
   /\ UNCHANGED <<st, t1, t1cnt, itsn, answered, next, rx, sentQ, outQ, sub, ssnOut, deliv, opens, ackPt, advPt>> /\ NoFault
 
-AdvW(r) == IF Rwnd > Cardinality(r.rcvd) THEN Rwnd - Cardinality(r.rcvd) ELSE 0
+AdvW(r) == IF ~WOn THEN Rwnd ELSE IF Rwnd > Cardinality(r.rcvd) THEN Rwnd - Cardinality(r.rcvd) ELSE 0
 SackOf(s, r) == WithW(Pkt("SACK", s, r.cum, NoFrag, GapSet(r)), AdvW(r))
 \* the SACK leaves at once, or - only if nothing is buffered out of order and no SACK is pending yet - is
 \* left to the delayed-SACK timer (RFC 4960 6.2: every second packet / gap / duplicate at once)
@@ -407,7 +409,7 @@ RecvSack(s, p) ==
   /\ (IF TsnGT(ackPt[s], p.tsn) /\ "StaleSackUpdatesRwnd" \notin Deviations
       THEN UNCHANGED <<peerW, since>>
       ELSE /\ peerW' = [peerW EXCEPT ![s] = p.w]
-           /\ since' = [since EXCEPT ![s] = 0])
+           /\ since' = IF WOn THEN [since EXCEPT ![s] = 0] ELSE since)
   /\ NetRecv(s, p, <<>>)
   /\ UNCHANGED <<st, t1, t1cnt, itsn, answered, next, rx, outQ, sub, ssnOut, deliv, opens, advPt, fwd, sackDue>> /\ NoFaultW
 
